@@ -32,9 +32,12 @@ LEVEL = "exploration"
 TIERS = {"quick": 2400, "thorough": 60000}
 RULE = (
     "one run = one tree: a collinear chain of 2-12 nodes or a root with two arms on opposite sides (radii in "
-    "[0.1, 6], each compartment length = max(end radii) x factor in {1 exactly, 1.001, 1.2, 1.5, 1.9, 2.5, 6}, so "
+    "[0.1, 6], each compartment length = max(end radii) x factor in {1 exactly, 1.000006, 1.001, 1.2, 1.5, 1.9, 2.5, 6}, so "
     "neighbouring spheres are tangent, overlapping or apart; the line has a special exact or a generic direction "
-    "and an offset; 15% of the collinear trees are small (scale 1/16 or 1/64) and far from the origin "
+    "and an offset; node types are drawn at random and 12% of the two-armed roots follow the three-point-soma "
+    "convention (soma-typed root and tips one radius apart); in 30% of the runs the nodes are numbered so that "
+    "children need not follow their parents; 0-2 radius edits (in place through a node handle, or on a copy) are "
+    "followed by a re-evaluation of the same levels; 15% of the collinear trees are small (scale 1/16 or 1/64) and far from the origin "
     "(coordinates of thousands, axis-parallel so that float32 storage keeps them exactly collinear); the feature "
     "API is called on a fresh extractor or on one extractor shared by all levels and schedules of the run; admissibility - non-adjacent solids have disjoint axial extent - is verified on the model and "
     "the spacing widened until it holds), or an arbitrary tree (any shape, <= 40 nodes) for levels 1 and 2. "
@@ -57,7 +60,7 @@ ASSUMPTIONS = [
     "in float64 from them); the residual non-collinearity after rounding (<= 1e-7 relative) is ignored",
     "the library computes in float32: tolerance 2e-4 relative for levels >= 3, 5e-5 for levels 1 and 2",
     "admissible = every compartment at least as long as both end radii and no two solids that do not share a node "
-    "have overlapping or touching axial extent (margin 1e-5 of the largest radius)",
+    "have overlapping or touching axial extent (margin 1e-6 of the largest radius)",
     "accuracy 10 (pure Monte Carlo over 1e8 samples) is outside the statement and is not run",
     "the Monte-Carlo term of a two-armed root must be exactly empty (the cones only meet inside the root sphere)",
 ]
@@ -85,7 +88,7 @@ def gen_arm(rng: Prng, r0: float, n: int) -> list:
     """[(gap factor, radius)] for n further nodes along one direction."""
     arm = []
     for _ in range(n):
-        arm.append([rng.choice([1.0, 1.001, 1.2, 1.5, 1.9, 2.5, 6.0]), gen_radius(rng) if rng.chance(0.8) else r0])
+        arm.append([rng.choice([1.0, 1.000006, 1.001, 1.2, 1.5, 1.9, 2.5, 6.0]), gen_radius(rng) if rng.chance(0.8) else r0])
     return arm
 
 
@@ -136,6 +139,26 @@ def generate(rng: Prng, tier: str) -> dict:
             pool = [1, 2, 3, 3, 4, "low"]
         p["levels"] = [w.choice(pool) for _ in range(1 if p["mc"] else w.randint(1, 3))]
     p["api"] = w.choice(["get_volume", "get_volume", "feature", "feature_shared", "feature_shared"])
+    hs = rng.stream("history")
+    n_nodes = len(p["tree"]["pid"]) if kind == "arbitrary" else 1 + len(p["arm_a"]) + len(p["arm_b"])
+    if kind != "arbitrary":
+        if kind == "two_arm" and hs.chance(0.12):
+            # the three-point-soma convention of SWC files: a soma-typed root with two soma-typed tips at one
+            # radius on either side - geometrically just a two-armed collinear root at the admissible boundary
+            # (exactly one radius apart the two tips touch each other, which the statement excludes: 6e-6 more)
+            p["arm_a"] = [[hs.choice([1.000006, 1.000006, 1.01]), 1.0]]
+            p["arm_b"] = [[hs.choice([1.000006, 1.000006, 1.01]), 1.0]]
+            p["r0"] = 1.0 if hs.chance(0.8) else 1.5
+            p["types"] = [1, hs.choice([1, 1, 3]), hs.choice([1, 1, 3])]
+            n_nodes = 3
+        else:
+            p["types"] = [hs.choice([1, 1, 1, 3, 0])] + [hs.choice([1, 2, 3, 3, 4]) for _ in range(n_nodes - 1)]
+    # numbering: children need not be stored after their parents (legal in SWC files, accepted by Tree.from_swc)
+    p["perm"] = [0] + [1 + q for q in hs.permutation(n_nodes - 1)] if (n_nodes > 2 and hs.chance(0.3)) else None
+    # history: after the first evaluation some radii are changed (in place through a node handle, or on a copy)
+    # and the same levels are asked again - the answer must follow the tree
+    p["edits"] = [{"node": hs.below(64), "factor": hs.choice([0.5, 0.75, 0.9]), "on": hs.choice(["inplace", "copy"])}
+                  for _ in range(hs.choice([0, 0, 1, 1, 2]))] if not p["mc"] else []
     n_s = 1 if p["mc"] else rs.randint(2, 4)
     p["schedules"] = [{"kind": "seed", "seed": rs.below(2**31)}] + [gen_schedule(rs) for _ in range(n_s - 1)]
     p["config"] = "faulting" if any(s["kind"] != "seed" for s in p["schedules"]) else "fault_free"
@@ -177,7 +200,10 @@ def layout(program: dict):
             d = math.sqrt(sum((xyz[i][k] - xyz[pid[i]][k]) ** 2 for k in range(3)))
             pos[i] = pos[pid[i]] + (d if s[i] > s[pid[i]] else -d)
         if admissible(pos, rr, pid):
-            t = {"type": [1] + [3] * (len(s) - 1), "x": [p[0] for p in xyz], "y": [p[1] for p in xyz],
+            types = program.get("types")
+            if not types or len(types) != len(s):
+                types = [1] + [3] * (len(s) - 1)
+            t = {"type": list(types), "x": [p[0] for p in xyz], "y": [p[1] for p in xyz],
                  "z": [p[2] for p in xyz], "r": rr, "pid": pid}
             return t, pos
         widen *= 1.35
@@ -196,7 +222,7 @@ def solids(pos, r, pid):
 
 
 def admissible(pos, r, pid) -> bool:
-    margin = 1e-5 * max(r)
+    margin = 1e-6 * max(r)
     for i in range(1, len(pos)):
         d = abs(pos[i] - pos[pid[i]])
         if d < r[i] or d < r[pid[i]]:
@@ -294,48 +320,71 @@ def execute(program: dict) -> dict:
         lens = [abs(pos[i] - pos[t["pid"][i]]) < t["r"][i] + t["r"][t["pid"][i]] for i in range(1, len(pos))]
         overlap = "overlap" if any(lens) else "apart"
     n = len(t["pid"])
+    perm = program.get("perm")
+    if perm and len(perm) == n:
+        # renumber: node i becomes node perm[i] (the root stays 0); the model follows
+        inv = [0] * n
+        for old_i, new_i in enumerate(perm):
+            inv[new_i] = old_i
+        t = {k: [t[k][inv[j]] for j in range(n)] for k in t}
+        t["pid"] = [(-1 if q == -1 else perm[q]) for q in t["pid"]]
+        if pos is not None:
+            pos = [pos[inv[j]] for j in range(n)]
+    rounds = [None] + list(program.get("edits") or [])
     with World() as world:
         try:
             tree = common.build_tree(t, source="gen")
             shared: dict = {}
-            for level in program["levels"]:
-                lv = LEVEL_NAMES.get(level, level)
-                if kind != "arbitrary" and lv >= 3:
-                    exp = union_reference(pos, t["r"], t["pid"])
-                    tol = 2e-4
-                elif lv <= 2:
-                    exp = level12_reference(t, lv)
-                    tol = 5e-5
-                else:
-                    continue
-                first = None
-                for si, s in enumerate(program["schedules"]):
-                    steps += 1
-                    install_schedule(world, s, axis)
-                    try:
-                        got = call_volume(tree, level, program["api"], shared)
-                    except Exception as e:  # noqa: BLE001
-                        violation = {"tag": "raised", "op": f"level{lv}/{type(e).__name__}",
-                                     "detail": f"{type(e).__name__}: {e}"[:300]}
-                        break
-                    world.log(str(level), si, s["kind"], float.hex(got))
-                    if not abs(got - exp) <= tol * abs(exp):
-                        violation = {"tag": "wrong_volume", "op": f"level{lv if lv < 3 else '>=3'}:{kind}",
-                                     "detail": f"accuracy={level!r}: reported {got!r}, reference {exp!r} "
-                                               f"(rel err {(got - exp) / exp:+.3g}) on a {kind} tree of {n} nodes, "
-                                               f"schedule {s['kind']}"}
-                        break
-                    if first is None:
-                        first = got
-                    elif abs(got - first) > 1e-5 * abs(first):
-                        violation = {"tag": "schedule_dependence", "op": f"level{lv}",
-                                     "detail": f"accuracy={level!r}: {first!r} under the first schedule, {got!r} under `{s['kind']}`"}
-                        break
-                    states.append(f"{kind}|{min(n, 12)}|{overlap}|{lv}|{s['kind']}")
-                    if program.get("mc") and lv >= 5:
-                        world.probe("c14.mc_branch_taken")
-                if violation:
-                    break
+            for ri, edit in enumerate(rounds):
+              if violation:
+                  break
+              if edit is not None:
+                  i = edit["node"] % n
+                  new_r = f32(t["r"][i] * edit["factor"])
+                  if edit["on"] == "copy":
+                      tree = tree.copy()
+                      shared = {}
+                  tree.node(i).r = new_r
+                  t["r"][i] = float(tree.node(i).r)
+                  world.log("edit", ri, i, edit["on"], float.hex(t["r"][i]))
+              for level in program["levels"]:
+                  lv = LEVEL_NAMES.get(level, level)
+                  if kind != "arbitrary" and lv >= 3:
+                      exp = union_reference(pos, t["r"], t["pid"])
+                      tol = 2e-4
+                  elif lv <= 2:
+                      exp = level12_reference(t, lv)
+                      tol = 5e-5
+                  else:
+                      continue
+                  first = None
+                  for si, s in enumerate(program["schedules"]):
+                      steps += 1
+                      install_schedule(world, s, axis)
+                      try:
+                          got = call_volume(tree, level, program["api"], shared)
+                      except Exception as e:  # noqa: BLE001
+                          violation = {"tag": "raised", "op": f"level{lv}/{type(e).__name__}",
+                                       "detail": f"{type(e).__name__}: {e}"[:300]}
+                          break
+                      world.log(str(level), si, s["kind"], float.hex(got))
+                      if not abs(got - exp) <= tol * abs(exp):
+                          violation = {"tag": "wrong_volume", "op": f"level{lv if lv < 3 else '>=3'}:{kind}",
+                                       "detail": f"accuracy={level!r}: reported {got!r}, reference {exp!r} "
+                                                 f"(rel err {(got - exp) / exp:+.3g}) on a {kind} tree of {n} nodes, "
+                                                 f"schedule {s['kind']}"}
+                          break
+                      if first is None:
+                          first = got
+                      elif abs(got - first) > 1e-5 * abs(first):
+                          violation = {"tag": "schedule_dependence", "op": f"level{lv}",
+                                       "detail": f"accuracy={level!r}: {first!r} under the first schedule, {got!r} under `{s['kind']}`"}
+                          break
+                      states.append(f"{kind}|{min(n, 12)}|{overlap}|{lv}|{s['kind']}")
+                      if program.get("mc") and lv >= 5:
+                          world.probe("c14.mc_branch_taken")
+                  if violation:
+                      break
         finally:
             world.rng_inject.clear()
         faults = dict(world.faults)
@@ -382,6 +431,10 @@ def shrink_candidates(program: dict):
         yield shrink.with_value(program, ["scale"], 1.0)
     if program["api"] != "get_volume":
         yield shrink.with_value(program, ["api"], "get_volume")
+    if program.get("perm"):
+        yield shrink.with_value(program, ["perm"], None)
+    if program.get("edits"):
+        yield from shrink.drop_from_list(program, ["edits"])
 
 
 FINDING_PREDICATES: dict = {}
